@@ -313,7 +313,8 @@ impl Sess {
         if let Res::Panic(msg, loc) = &res {
             if !self.quiet_panics {
                 let sig = format!("{} @ {} :: {}", panic_arg_class(&resolved), short_loc(loc), first_line(msg, 100));
-                self.violation("panic", sig, format!("{} panicked: {} at {}", desc, msg, loc));
+                let group = format!("{} @ {} :: {}", resolved.name(), short_loc(loc), first_line(msg, 60));
+                self.violation_g("panic", sig, group, format!("{} panicked: {} at {}", desc, msg, loc));
             }
         }
         res
